@@ -66,6 +66,8 @@ class Part:
     examples: int = 100                        # per process
     shards: int = 1                            # processes (thorough tier)
     exhaustive: bool = False                   # enumeration covers a finite space fully
+    fuzz_runs: int = 0                         # thorough tier: extra coverage-guided campaign (atheris), per shard
+    fuzz_shards: int = 0
     chunk: int = 2000                          # enumeration chunk size per task
 
 
@@ -359,6 +361,45 @@ def main(argv):
         traceback.print_exc()
         return 2
 
+    # coverage-guided supplement (atheris / libFuzzer driving the same strategy and checker)
+    fuzz_info = {}
+    if tier == 'thorough' and os.path.isdir(os.path.join(DEPS, 'atheris')) and not os.environ.get('VERIF_NO_FUZZ'):
+        import subprocess
+        import tempfile
+        procs = []
+        tmpd = tempfile.mkdtemp(prefix='vp_fuzz_')
+        for p in parts:
+            for sh in range(p.fuzz_shards if p.fuzz_runs else 0):
+                outf = os.path.join(tmpd, f'{p.name}-{sh}.json')
+                cmd = [sys.executable, '-m', 'vp.fuzz.atheris_driver', mod.__name__, p.name, str(p.fuzz_runs),
+                       str(seed * 1000 + sh + 1), outf]
+                procs.append((p.name, outf, subprocess.Popen(cmd, cwd=VERIF, stdout=subprocess.DEVNULL,
+                                                              stderr=subprocess.DEVNULL)))
+        for name, outf, pr in procs:
+            try:
+                pr.wait(timeout=3 * 3600)
+            except Exception:
+                pr.kill()
+            if not os.path.exists(outf):
+                fuzz_info.setdefault(name, {'campaigns': 0, 'failed': 0})['failed'] += 1
+                continue
+            d = json.load(open(outf))
+            st = Stats()
+            st.evaluations, st.elementary = d['evaluations'], d['elementary']
+            st.nontrivial = set(d['nontrivial'])
+            st.classes = d['classes']
+            st.samples = d['samples'][:1]
+            st.viol = {k: (v[0], v[1]) for k, v in d['viol'].items()}
+            st.viol_count = d['viol_count']
+            st.errors = [(e, None) for e in d['errors']]
+            per_part.setdefault(name, Stats()).merge(st)
+            total.merge(st)
+            fi = fuzz_info.setdefault(name, {'campaigns': 0, 'failed': 0, 'executions': 0})
+            fi['campaigns'] += 1
+            fi['executions'] = fi.get('executions', 0) + d['evaluations']
+        import shutil
+        shutil.rmtree(tmpd, ignore_errors=True)
+
     if total.errors:
         print('HARNESS ERROR: checker raised (not a property verdict):', file=sys.stderr)
         tb, case = total.errors[0]
@@ -401,6 +442,7 @@ def main(argv):
             'parts': {n: {'evaluations': s.evaluations, 'elementary_checks': s.elementary, 'distinct_nontrivial': len(s.nontrivial),
                           'classes': dict(sorted(s.classes.items()))}
                       for n, s in per_part.items()},
+            'coverage_guided_campaigns': fuzz_info,
             'known_finding_hits_in_search': known_hits,
             'known_findings_reproduced': [f['sig'] for f in hits],
             'new_violation_signatures': sorted({s for s, _, _ in out_viol}),
